@@ -24,6 +24,22 @@ func docsEqual(a, b bsonkit.Doc) bool {
 	return bytes.Equal(aBytes, bBytes)
 }
 
+// sameID reports whether two _id values are identical (same BSON type and equal
+// value). Unlike the == operator on interface values it does not panic for
+// document, array or binary values.
+func sameID(a, b interface{}) bool {
+	// a missing _id only equals a missing _id
+	if a == bsonkit.Missing || b == bsonkit.Missing {
+		return a == bsonkit.Missing && b == bsonkit.Missing
+	}
+
+	// compare type and value
+	_, at := bsonkit.Inspect(a)
+	_, bt := bsonkit.Inspect(b)
+
+	return at == bt && bsonkit.Compare(a, b) == 0
+}
+
 // Result is returned by collection operations.
 type Result struct {
 	// The list of found or deleted documents.
@@ -173,7 +189,7 @@ func (c *Collection) Replace(query, repl, sort bsonkit.Doc) (*Result, error) {
 		if err != nil {
 			return nil, err
 		}
-	} else if replID != bsonkit.Get(list[0], "_id") {
+	} else if !sameID(replID, bsonkit.Get(list[0], "_id")) {
 		return nil, fmt.Errorf("document _id is immutable")
 	}
 
@@ -263,7 +279,7 @@ func (c *Collection) Update(query, update, sort bsonkit.Doc, skip, limit int, ar
 
 	// check ids
 	for i, doc := range newList {
-		if bsonkit.Get(doc, "_id") != bsonkit.Get(list[i], "_id") {
+		if !sameID(bsonkit.Get(doc, "_id"), bsonkit.Get(list[i], "_id")) {
 			return nil, fmt.Errorf("document _id is immutable")
 		}
 	}
